@@ -168,6 +168,19 @@ pub fn exec(case: &[i64]) -> Outcome {
         }
       }
     }
+    4 => {
+      // byte-level RFC 7638 thumbprint against the model's SHA-256: [declared kty, family, n, (name, value)*]
+      let (kty, fam, n) = (v[0], v[1], v[2]); let mut w = &v[3..];
+      let mut m = Map::new(); m.insert("kty".into(), json!(kty_name(kty)));
+      for _ in 0..n { let name = String::from_utf8(take_bytes(&mut w).unwrap()).unwrap(); let val = String::from_utf8(take_bytes(&mut w).unwrap()).unwrap(); if !m.contains_key(&name) { m.insert(name, json!(val)); } }
+      let j: Jwk = match serde_json::from_value(Value::Object(m)) { Ok(j) => j, Err(_) => return Outcome::new(vec![-4]).class("thumb-key-rejected").trivial() };
+      if kty_code(j.kty()) != kty || family(&j) != fam { return Outcome::new(vec![-4]).class("thumb-other-family").trivial(); }
+      let mut obs = vec![]; put_bytes(&mut obs, j.thumbprint_hash_input().as_bytes()); put_bytes(&mut obs, j.thumbprint_sha256_b64().as_bytes());
+      let mut o = Outcome::new(obs).class("thumbprint-bytes");
+      if identity_jose::jwu::decode_b64(j.thumbprint_sha256_b64()).ok().as_deref() != Some(&j.thumbprint_sha256()[..]) { o = o.fail("thumbprint_sha256_b64 is not the base64url form of thumbprint_sha256"); }
+      if let Some(p) = j.to_public() { if p.thumbprint_sha256_b64() != j.thumbprint_sha256_b64() { o = o.fail("thumbprint changes with the private part"); } }
+      o
+    }
     _ => Outcome::new(vec![-998]).fail("bad case kind"),
   }
 }
@@ -196,6 +209,19 @@ pub fn gen(rng: &mut Rng, thorough: bool, sink: &mut Sink) {
   }
   // conversion from the foreign (JSON-proof-token) key type: every declared kty x variant x private x x5u x kid
   for decl in 0..4 { for shape in 0..2 { for private in 0..2 { for x5u in 0..3 { for kid in 0..2 { sink.case(vec![3, decl, shape, private, x5u, kid], "foreign-conversion"); } } } } }
+  // byte-level thumbprints: real-looking and degenerate values of every length class (SHA-256 block boundaries: 55 / 56 / 64 / 119 / 120 bytes of input),
+  // optional and private members present or not, members in any order
+  { let b64 = |rng: &mut Rng, n: usize| -> String { (0..n).map(|_| *rng.pick(&"ABCXYZabcxyz0189-_".chars().collect::<Vec<char>>())).collect() };
+    let fams: [(i64, &[&str], &[&str]); 4] = [(0, &["crv", "x", "y"], &["d"]), (1, &["n", "e"], &["d", "p", "q", "dp", "dq", "qi"]), (2, &["k"], &[]), (3, &["crv", "x"], &["d"])];
+    let lens: Vec<usize> = if thorough { (0..140).collect() } else { vec![0, 1, 2, 3, 10, 11, 20, 21, 22, 30, 31, 32, 33, 40, 43, 44, 54, 55, 56, 57, 63, 64, 65, 86, 100, 118, 119, 120, 121, 128, 342] };
+    for (fam, req, privs) in fams.iter() { for &len in &lens { for variant in 0..4 {
+      let mut ms: Vec<(String, String)> = req.iter().map(|r| (r.to_string(), if *r == "crv" { ["P-256", "Ed25519", "secp256k1", "", "X"][len % 5].to_string() } else if *r == "e" { "AQAB".to_string() } else { b64(rng, len) })).collect();
+      if variant & 1 == 1 { for p in privs.iter() { ms.push((p.to_string(), b64(rng, 8))); } ms.push(("kid".into(), "some-kid".into())); ms.push(("alg".into(), "EdDSA".into())); }
+      if variant & 2 == 2 { ms.reverse(); }
+      let mut c = vec![4, *fam, *fam, ms.len() as i64]; for (n, v) in &ms { put_bytes(&mut c, n.as_bytes()); put_bytes(&mut c, v.as_bytes()); } sink.case(c, "thumbprint-bytes");
+    } } }
+    // values that a JSON writer would escape: the format string inserts them verbatim
+    for val in ["a\"b", "a\\b", "\u{e9}", "a b", "{", "\n"] { let mut c = vec![4, 3, 3, 2]; put_bytes(&mut c, b"crv"); put_bytes(&mut c, b"Ed25519"); put_bytes(&mut c, b"x"); put_bytes(&mut c, val.as_bytes()); sink.case(c, "thumbprint-verbatim"); } }
   // constructor / setter sequences, exhaustive to depth 2 (3 in thorough), random beyond
   let mut steps: Vec<[i64; 3]> = Vec::new();
   for t in 0..4 { steps.push([0, t, 0]); for p in 0..2 { steps.push([1, t, p]); steps.push([2, t, p]); } }
